@@ -41,6 +41,10 @@ func RunFiles(bytecode *bytecode.Bytecode, filenames []string, mode ReplaceMode,
 					panic(err)
 				}
 				for _, entry := range entries {
+					// only the files of the directory are searched: a subdirectory cannot be read as a file
+					if entry.IsDir() {
+						continue
+					}
 					actualFiles = append(actualFiles, fixedFilename+entry.Name())
 				}
 			} else {
